@@ -394,10 +394,8 @@ PROPS["C17"] = dict(
                                    "Study.get_trials returns the trials sorted by number (C01)",
                                    "finished trials are immutable between calls (C02/C20): the ghost set `accounted` of the "
                                    "previous call is still a set of finished trials with unchanged distributions"],
-    not_covered=["group decomposition: 'every finished trial's parameter set is a union of groups' is proved only in the form "
-                 "cover + partition (groups non-empty, pairwise disjoint, their union = all parameters of the trials of "
-                 "interest); the refinement clause (each new group lies inside one old group and on one side of the new key "
-                 "set) is not stated yet"],
+    not_covered=["that every group key stems from some trial (the converse inclusion of the cover) across calls",
+                 "termination; trials deleted from a live study"],
 )
 PROPS["C17"]["claim"] += (
     " IntersectionSearchSpace.calculate (the stateful wrapper) is proved to return a fresh dict that is the from-scratch "
@@ -405,7 +403,9 @@ PROPS["C17"]["claim"] += (
     " Group decomposition: _SearchSpaceGroup.add_distributions keeps the groups a partition (non-empty, pairwise disjoint) whose "
     "union is the old union plus the new trial's parameter names (loop invariant over the old groups; set algebra, dict "
     "comprehensions over sets and filter() modelled), and _GroupDecomposedSearchSpace.calculate returns a fresh deep copy whose "
-    "groups cover every parameter of every CURRENT trial of interest read from the (abstract) storage.")
+    "groups cover every parameter of every CURRENT trial of interest read from the (abstract) storage, and the parameter set of "
+    "every such trial is a union of groups (refinement clause of add_distributions: each new group lies inside one old group "
+    "and on one side of the new key set, or consists of new keys only; the witness is the filter position).")
 
 
 PROPS["C14"] = dict(
